@@ -152,6 +152,14 @@ def main():
             for b in CLASSES:
                 shards.append((t, CLASSES, 4, 4, (a, b), ENVS, dl))
     engine.phase(ck, 'quoted bodies == 4', shard_product, shards, templates=2, environments=4, alphabet=len(CLASSES))
+    # substitution forms as single symbols, mixed with the characters they interact with
+    ENVSYM = [b'${V}', b'${V:-d}', b'${U:-d}', b'${U}', b'${V:-}', b'${V:-a b}', b'${U:-${V}}', b'a', b'\\', b'$', b'{', b'}', b' ', b'"', b"'"]
+    shards = []
+    for t in ('dq', 'sq', 'uq', 'dql', 'uql'):
+        for a in ENVSYM:
+            shards.append((t, ENVSYM, 1, 3, (a,), ENVS, dl))
+    engine.phase(ck, 'substitution forms ${V} ${V:-d} ${U:-d} ... as symbols, sequences <= 3, 5 templates, 4 environments', shard_product, shards,
+                 alphabet=len(ENVSYM))
     if not quick:
         shards = []
         for a in CLASSES:
